@@ -8,18 +8,28 @@
 
 //@cond none
 
+#ifdef KHIZMAX_LIBCDS_VERIF
+extern "C" void cds_verif_spin() noexcept; // verification build only: spin hint seen by the simulator
+#endif
+
 namespace cds { namespace backoff {
     namespace gcc { namespace x86 {
 
 #       define CDS_backoff_nop_defined
         static inline void backoff_nop()
         {
+#ifdef KHIZMAX_LIBCDS_VERIF
+            ::cds_verif_spin();
+#endif
             asm volatile ( "nop;" );
         }
 
 #       define CDS_backoff_hint_defined
         static inline void backoff_hint()
         {
+#ifdef KHIZMAX_LIBCDS_VERIF
+            ::cds_verif_spin();
+#endif
             asm volatile ( "pause;" );
         }
 
